@@ -78,32 +78,26 @@ theorem holdsAt_objs {p : PC} {f f' : Frame} (h : f'.objs = f.objs) : holdsAt p 
   unfold holdsAt
   split <;> simp [h]
 
-/-- An nsync_wait_n call with a finite abs_deadline returns. -/
-theorem wait_returns_timed (x : Exec s0) (H : FairHyps x) (hclk : ClockAdvances x) (t : Tid) (hfw : FiniteWakeups x t) (i : Nat)
-    (hin : inCall ((x.ρ i).pc t) = true) (d0 : Int) (hdl : ((x.ρ i).fr t).dl = some d0) :
+/-- An nsync_wait_n call returns, provided a sleeper that is never woken again is eventually not blocked (`hsl`). -/
+theorem wait_returns_core (x : Exec s0) (H : FairHyps x) (t : Tid) (hfw : FiniteWakeups x t) (i : Nat)
+    (hin : inCall ((x.ρ i).pc t) = true)
+    (hsl : ∀ j, i ≤ j → (∀ m, i ≤ m → m ≤ j → (x.ρ m).pc t ≠ .idle) → Still x t j → ∀ k, (x.ρ j).pc t = .wPdWait k →
+      ∃ j1, j ≤ j1 ∧ ∀ j', j1 ≤ j' → ¬ Blocked (x.ρ j') t) :
     ∃ j, i ≤ j ∧ (x.ρ j).pc t = .idle := by
   have hr := H.reach
   apply Classical.byContradiction
   intro hno
   have hni : ∀ j, i ≤ j → (x.ρ j).pc t ≠ .idle := fun j hj h => hno ⟨j, hj, h⟩
   -- the call stays the same call
-  have keep : ∀ d, inCall ((x.ρ (i + d)).pc t) = true ∧ ((x.ρ (i + d)).fr t).dl = some d0 := by
+  have keep : ∀ d, inCall ((x.ρ (i + d)).pc t) = true := by
     intro d
     induction d with
-    | zero => exact ⟨hin, hdl⟩
+    | zero => exact hin
     | succ d ih =>
-      refine ⟨?_, ?_⟩
-      · rw [show i + (d + 1) = i + d + 1 by omega, x.inCall_step t (i + d) (hni _ (by omega)) (hni _ (by omega))]
-        exact ih.1
-      · obtain ⟨e, hp, _⟩ := x.prog hr t (i + d)
-        rcases hp with h | h | ⟨_, h, _⟩
-        · exact absurd h (hni _ (by omega))
-        · exact absurd h (hni _ (by omega))
-        · rw [show i + (d + 1) = i + d + 1 by omega, h]; exact ih.2
+      rw [show i + (d + 1) = i + d + 1 by omega, x.inCall_step t (i + d) (hni _ (by omega)) (hni _ (by omega))]
+      exact ih
   have hinc : ∀ j, i ≤ j → inCall ((x.ρ j).pc t) = true := fun j hj => by
-    obtain ⟨d, rfl⟩ : ∃ d, j = i + d := ⟨j - i, by omega⟩; exact (keep d).1
-  have hdlc : ∀ j, i ≤ j → ((x.ρ j).fr t).dl = some d0 := fun j hj => by
-    obtain ⟨d, rfl⟩ : ∃ d, j = i + d := ⟨j - i, by omega⟩; exact (keep d).2
+    obtain ⟨d, rfl⟩ : ∃ d, j = i + d := ⟨j - i, by omega⟩; exact keep d
   obtain ⟨n, hn⟩ := hfw
   -- classification of the steps after the last wake-up
   have cls : ∀ j, i ≤ j → n ≤ j →
@@ -122,7 +116,7 @@ theorem wait_returns_timed (x : Exec s0) (H : FairHyps x) (hclk : ClockAdvances 
     · exact .inr (.inl h)
     · exact .inr (.inr (.inl h))
     · obtain ⟨k, hk, hek⟩ := h
-      exact absurd (he k hek) (hn j k hnj hk)
+      exact absurd (he k hek.1) (hn j k hnj hk)
     · refine .inr (.inr (.inr ⟨h.1, h.2, ?_, ho⟩))
       simp only [rk, h.2, count_eq ho]
       exact rank_nfWake h.1 _ _ _
@@ -222,7 +216,29 @@ theorem wait_returns_timed (x : Exec s0) (H : FairHyps x) (hclk : ClockAdvances 
               · exact h
               · rw [hpcs d] at h; exact absurd h.1 hsp
               · rw [hpcs d] at h; exact absurd h.1 hnf
-            exact stuck_false x H hclk t j hst (hni j hj) (fun k _ => ⟨d0, hdlc j hj⟩)
+            exact stuck_false x H t j hst (hni j hj) (hsl j hj (fun m h1 _ => hni m h1) hst)
   exact core _ (max i n) (Nat.le_max_left _ _) (Nat.le_max_right _ _) rfl
+
+/-- the abs_deadline of a call in progress does not change -/
+theorem dl_keep (x : Exec s0) (hr : Reachable s0) (t : Tid) (i : Nat) :
+    ∀ d, (∀ m, i ≤ m → m ≤ i + d → (x.ρ m).pc t ≠ .idle) → ((x.ρ (i + d)).fr t).dl = ((x.ρ i).fr t).dl := by
+  intro d
+  induction d with
+  | zero => intro _; rfl
+  | succ d ih =>
+    intro hni
+    obtain ⟨e, hp, _⟩ := x.prog hr t (i + d)
+    rcases hp with h | h | ⟨_, h, _⟩
+    · exact absurd h (hni _ (by omega) (by omega))
+    · exact absurd h (hni (i + d + 1) (by omega) (by omega))
+    · rw [show i + (d + 1) = i + d + 1 by omega, h]; exact ih (fun m h1 h2 => hni m h1 (by omega))
+
+/-- An nsync_wait_n call with a finite abs_deadline returns. -/
+theorem wait_returns_timed (x : Exec s0) (H : FairHyps x) (hclk : ClockAdvances x) (t : Tid) (hfw : FiniteWakeups x t) (i : Nat)
+    (hin : inCall ((x.ρ i).pc t) = true) (d0 : Int) (hdl : ((x.ρ i).fr t).dl = some d0) :
+    ∃ j, i ≤ j ∧ (x.ρ j).pc t = .idle := by
+  refine wait_returns_core x H t hfw i hin (fun j hj hni hst k hpk => ?_)
+  obtain ⟨d, rfl⟩ : ∃ d, j = i + d := ⟨j - i, by omega⟩
+  exact sleep_timed_unblocks x H.reach hclk t (i + d) k hst hpk d0 (by rw [dl_keep x H.reach t i d hni]; exact hdl)
 
 end WaitN
